@@ -7,15 +7,17 @@ import random
 
 from .. import common, identlib
 from ..gen import cfggen, edits
-from ..translate import hashflags
+from ..translate import hashflags, hashsrc
 from .c02 import id_steps, ids_of
 
 PROP = "C03"
-MODULES = ["XpmVerif.Properties.C03"]
+MODULES = ["XpmVerif.Properties.C03", "XpmVerif.Properties.HashSrc"]
 
 
 def prove(ctx):
-    msgs = [hashflags.generate(common.REPO, common.LEAN, probe=identlib.loop_flag_probe(ctx))]
+    msgs = [hashflags.generate(common.REPO, common.LEAN, probe=identlib.loop_flag_probe(ctx)), hashsrc.generate(common.REPO, common.LEAN)]
+    ctx.notes.append(f"translator(hashsrc): {msgs[1][1]}")
+    ctx.count("translator", "hashsrc:" + ("translated" if msgs[1][1].startswith("translated") else "fallback"))
     common.check_proofs(ctx, MODULES, translate_msgs=msgs)
 
 
@@ -337,6 +339,8 @@ F2_B = {"nodes": [{"cls": "W", "values": [["d", {"d": [["a", {"l": [{"d": [["k",
 
 
 def run_witness(ctx, finding):
+    if common.run_script_witness(ctx, finding):
+        return
     w = finding.get("witness") or {}
     if w.get("kind") == "producing-task":
         from concurrent.futures import ThreadPoolExecutor
